@@ -1,6 +1,7 @@
 """C15 - shards partition the dataset."""
 import json
 import random
+import numpy as np
 import warnings
 
 import lazy_dataset
@@ -69,6 +70,19 @@ def split_oracle(n, k, kind):
               if s != lists[i]:
                   out.append(('shard_eq_split', {'n': n, 'k': k, 'i': i, 'shard': s, 'split': lists[i]}))
                   break
+          # every shard is a dataset of its own: indices of either sign (Python and numpy integers) address ITS examples,
+          # everything outside [-len, len) is refused
+          bad_index = None
+          for p_, l_ in zip(parts, lists):
+              m = len(l_)
+              for i in range(-m - 2, m + 2):
+                  for typ in (int, np.int64):
+                      got = outcome(lambda: p_[typ(i)], lambda x: x)
+                      want = {'ok': l_[i]} if -m <= i < m else {'err': 'IndexError'}
+                      if got != want and bad_index is None:
+                          bad_index = {'n': n, 'k': k, 'shard': l_, 'index': i, 'index_type': typ.__name__, 'got': got, 'want': want}
+          if bad_index:
+              out.append(('shard_index', bad_index))
           # the shard taken lazily (`ds.apply(lambda d: d.shard(k, i), lazy=True)`, the usage the `apply` docstring
           # recommends): it yields the shard, and whatever it answers about its length and keys is true of the shard
           for i in range(k):
